@@ -45,6 +45,9 @@ func (w *jsonWorld) Gen(seed uint64, tier string) *Plan {
 			cfg.Ctor = "" // the default-comparator constructor only goes with the natural order
 		}
 	}
+	if r.P(1, 4) {
+		cfg.Skip = []int{2, 3, 5}[r.Intn(3)] // unobserved stretches between the store's operations (see histWorld)
+	}
 	p := &Plan{World: "json", Cfg: cfg}
 	s := makeSubject(cfg, false)
 	roles := s.(Roler).Roles()
@@ -384,7 +387,9 @@ func (w *jsonWorld) Exec(p *Plan, st *RunStats) *Violation {
 				return nil
 			}
 		default:
+			o.Sparse = p.Cfg.Skip > 1 && derive(op.ID, 77, p.Cfg.Skip) != 0
 			safely(o, op, func() { s.Step(op, o) })
+			o.Sparse = false
 			if s.ModelSize() < before {
 				removals++
 			}
